@@ -213,7 +213,8 @@ structure Env where
   isLocal : Bool
   /-- `transportDetails` handed to `AttachClient` -/
   transport : Dict := []
-  /-- the non-blocking send of CHALLENGE finds the client's queue full -/
+  /-- the client's outbound queue has no room during the handshake: a non-blocking send
+      (CHALLENGE; WELCOME when the handler sends it) finds it full -/
   challengeBlocked : Bool := false
   /-- `{broker: brokerRole, dealer: dealerRole}` -/
   routerRoles : WVal
@@ -485,6 +486,8 @@ def csAuth (checksChallenge : Bool) (ks : KeyStore) (timeoutMs : Nat) (env : Env
 
 /-- Static facts of the source the model is parametrised by (all regenerated). -/
 structure Facts where
+  /-- WELCOME is sent without blocking (by the session handler): a full queue drops it -/
+  welcomeNonBlocking : Bool
   firstMatch : Bool
   csChecksChallenge : Bool
   helloSkip : List String
@@ -492,7 +495,8 @@ structure Facts where
   sessionKey : String
 
 def Facts.gen : Facts :=
-  { firstMatch := Gen.Auth.getAuthenticatorFirstMatch
+  { welcomeNonBlocking := Gen.Auth.welcomeSendNonBlocking
+    firstMatch := Gen.Auth.getAuthenticatorFirstMatch
     csChecksChallenge := Gen.Auth.cryptosignChecksChallenge
     helloSkip := Gen.Auth.helloSkip
     welcomeSkip := Gen.Auth.welcomeSkip
@@ -630,7 +634,9 @@ def attachRealm (fx : Facts) (rc : RealmCfg) (created : Option RealmCfg) (env : 
       if rc.closing then
         abortWith Gen.N.ErrSystemShutdown .realmClosing r.sent created r.rest
       else
-        { outcome := .welcome env.o.sid sess w, sent := r.sent ++ [.welcome env.o.sid w],
+        { outcome := .welcome env.o.sid sess w,
+          sent := if fx.welcomeNonBlocking && env.challengeBlocked then r.sent
+                  else r.sent ++ [.welcome env.o.sid w],
           joined := true, created := created, rest := r.rest }
 
 /-- `router.AttachClient` -/
